@@ -21,6 +21,7 @@ sequence, sense of rotation, length, exactly one entry per curved geometric edge
 Edge.length of every wire).
 """
 import json
+import hashlib
 import math
 import re
 import warnings
@@ -603,11 +604,25 @@ def build_program(prog):
     """-> (operations, datas) with datas[i][slot] = EdgeData object given for that slot"""
     cb = _cb()
     ops, datas = [], []
+    # for every second program (chosen by the program itself, so that replays agree) each operation exists, has been asked for
+    # its edges and has been assembled in a scratch mesh BEFORE its faces get their edges and are re-indexed: what an assembly
+    # lists is the operation as it is at that moment
+    late = int(hashlib.sha1(json.dumps(prog, sort_keys=True, default=str).encode()).hexdigest()[:4], 16) % 2 == 0
     for o in prog["ops"]:
         c = o["corners"]
         bottom, top = cb.Face(c[:4]), cb.Face(c[4:])
         dd = {}
         side = []
+        op = None
+        if late:
+            op = cb.Loft(bottom, top)
+            op.edges  # noqa: B018  (read once)
+            with warnings.catch_warnings():
+                warnings.simplefilter("ignore")
+                scratch = cb.Mesh()
+                scratch.add(op)
+                scratch.assemble()
+            bottom, top = op.bottom_face, op.top_face
         for ed in o["edges"]:
             data = build_data(ed["defn"])
             dd[ed["slot"]] = data
@@ -619,7 +634,8 @@ def build_program(prog):
                 side.append((ed["slot"] - 8, data))
         apply_variant(bottom, o["variant"], c[:4])
         apply_variant(top, o["variant"], c[4:])
-        op = cb.Loft(bottom, top)
+        if op is None:
+            op = cb.Loft(bottom, top)
         for (i, data) in side:
             # side edges are defined on the operation as it is finally numbered: the user's direction
             # is from the bottom corner now in slot i to the top corner above it
